@@ -180,13 +180,22 @@ func C12(run *mon.Run) {
 			run.Shape(a.alg.String() + "|decoded|" + names[i])
 		}
 	}
-	for i := 0; i < run.Pick(10, 100); i++ {
+	for i := 0; i < run.Pick(40, 400); i++ {
 		n := 2 + r.IntN(5)
 		var sks []crypto.PrivateKey
 		sum := new(big.Int)
+		// which input keys already had PublicKey() called varies (lazy caching must not matter)
+		mask := r.IntN(1 << n)
+		if i%3 == 0 {
+			mask = 1<<(n-1) | r.IntN(1<<(n-1))&^1 // last cached, first not
+		}
 		for j := 0; j < n; j++ {
 			k := randScalar(r)
-			sks = append(sks, skFromInt(k))
+			sk := skFromInt(k)
+			if mask&(1<<j) != 0 {
+				_ = sk.PublicKey()
+			}
+			sks = append(sks, sk)
 			sum = ref.Fr.Add(sum, k)
 		}
 		agg, err := crypto.AggregateBLSPrivateKeys(sks)
